@@ -234,6 +234,17 @@ type Pool struct {
 	real sync.Pool
 	free []any
 	once bool
+	gen  uint64 // dsim.Generation() the free list belongs to
+}
+
+// sync resets the free list when a new scenario run has begun: a pool is process state, and a
+// run must not depend on what earlier runs of the same worker process left in it (its replay
+// happens in a fresh process).
+func (p *Pool) sync() {
+	if g := dsim.Generation(); g != p.gen {
+		p.gen = g
+		p.free = nil
+	}
 }
 
 func (p *Pool) Get() any {
@@ -246,6 +257,7 @@ func (p *Pool) Get() any {
 		return p.real.Get()
 	}
 	s.Yield("pool.get")
+	p.sync()
 	if n := len(p.free); n > 0 && s.Tape().Intn(8) != 7 {
 		x := p.free[n-1]
 		p.free = p.free[:n-1]
@@ -271,6 +283,7 @@ func (p *Pool) Put(x any) {
 	if x == nil {
 		return
 	}
+	p.sync()
 	p.free = append(p.free, x)
 	s.Yield("pool.put")
 }
